@@ -272,6 +272,11 @@ func propC14(w *World, r *Report) {
 	linkObligations(w, r, propC01, "C01", func(o *Obligation) bool {
 		return o.Rule == "C01.O2" && (strings.Contains(o.Construct, "SetAsOldest at") || strings.Contains(o.Construct, "stop-without-mark"))
 	}, "M2")
+	// "... and restarts detection": whatever the detector keeps about the scene is rebuilt after the reset - the
+	// background is seeded afresh (the seeding and reset rules of C15)
+	linkObligations(w, r, propC15, "C15", func(o *Obligation) bool {
+		return o.Rule == "C15.A4" && (strings.Contains(o.Construct, "seeded from the input when the background frame count is 1") || strings.Contains(o.Construct, "Reset zeroes the background frame count"))
+	}, "M2")
 	if mruns, err := getMotionRuns(w); err == nil {
 		checkProcessorResetResetsDetector(w, r, mruns, "M2")
 		if dd := getDetector(w); dd.Err == nil {
